@@ -185,4 +185,13 @@ def scaleRec (k : Nat) (r : Rec) : Rec := { r with indentation := k * r.indentat
     `len(raw_lines[i]) - len(raw_line.lstrip())` (the `multiline_indentation`) is exactly the number of leading spaces -/
 def openerTight (l : Str) : Bool := !isOpener (strip l) || l.length == lead l + (strip l).length
 
+/-- `"\n".join(lines)` -/
+def joinNL : List Str → Str
+  | [] => []
+  | [l] => l
+  | l :: m :: ls => l ++ '\n' :: joinNL (m :: ls)
+
+/-- the content with every line's leading spaces repeated `k` times -/
+def scaleContent (k : Nat) (content : Str) : Str := joinNL ((splitNL content).map (scaleLine k))
+
 end NemoVerif.NumberedLines
